@@ -464,8 +464,8 @@ func checkC14(c *ctx) {
 		"rule": "Engine T: random well-formed flows (accepted, also in a second listing/option order) and every applicable single-defect mutation of each (no provider as task input / Results / predicate input; type provided by two tasks / twice in Params / by Params and a task; " +
 			"cycle direct / at distance >= 2 / through a predicate / self; unused param; unused output; Invoke stripped), each its own package, one cff process per package; reject = non-zero exit, diagnostic naming the file, no output file. " +
 			"Slice/Map: all pairs of an 11-type lattice (identical, concrete<->interface, unnamed<->named, distinct named with equal underlying type) for element, index-less element, map key and map value; expected verdict computed with go/types.AssignableTo. distinct = distinct (kind, package)",
-		"samples":             samples,
-		"cases_by_kind":       byKind,
+		"samples":                           samples,
+		"cases_by_kind":                     byKind,
 		"inputs_discarded_not_type_correct": discarded,
 	}
 	writeEvidence(c, cov, []string{"the reference well-formedness rules are applied to the abstract program by construction (each mutation introduces exactly one named defect)"})
